@@ -15,7 +15,7 @@ import itertools
 from sa.model import AnalysisError, walk_shallow, dotted, norm
 from sa.util import shallow_calls, local_defs, resolve_name
 from sa import pureeval
-from sa.callgraph import CallGraph
+from sa.context import callgraph
 
 
 def monotone_source(model, cls, expr):
@@ -47,7 +47,7 @@ def check(run, model, tier):
     run.rule('CMP.total-order', '__lt__ == lexicographic (priority, construction sequence); sequence from next(itertools.count())')
     run.rule('CMP.queue-kind', 'fabric queues are PriorityQueue, put()/get() only; items built from (event, priority) at publish time')
     fab = model.cls('ActiveFabricSource')
-    cg = CallGraph(model)
+    cg = callgraph(model)
     # the priority queues of the fabric
     pq_fields = sorted(a for (k, a), tys in cg.field_types.items() if k == fab.name and 'PriorityQueue' in tys)
     run.floor('fabric priority-queue fields', len(pq_fields), 2)
